@@ -488,6 +488,7 @@ func cmdParseGroups(args []string) {
 	traceEvery := fs.Int("trace-every", 1, "trace every k-th group")
 	df := fs.String("df", "dflt", "default field for the second run")
 	observe := fs.Bool("observe", false, "also record String/GoString/Marshal/ToPostgres/ToParameterizedPostgres")
+	withSQL := fs.Bool("sql", false, "also record both SQL renderings as PostgreSQL's parser reads them")
 	fs.Parse(args)
 	r, closeFn := newRecorder(*out, *trace != "")
 	defer closeFn()
@@ -536,8 +537,13 @@ func cmdParseGroups(args []string) {
 				observeAll(a)
 				observeAll(b)
 			}
-			outCases = append(outCases, map[string]any{"id": c.ID, "kind": c.Kind, "note": c.Note, "expect": c.Expect,
-				"toks": a.Toks, "res": slim(a), "resdf": slim(b), "df": *df})
+			oc := map[string]any{"id": c.ID, "kind": c.Kind, "note": c.Note, "expect": c.Expect,
+				"toks": a.Toks, "res": slim(a), "resdf": slim(b), "df": *df}
+			if *withSQL {
+				inl, par := renderBoth(q, "")
+				oc["sql"] = map[string]any{"inline": inl, "param": par}
+			}
+			outCases = append(outCases, oc)
 		}
 		r.write(map[string]any{"n": g.N, "cases": outCases})
 	}
